@@ -51,6 +51,7 @@ type Op struct {
 type TreeCase struct {
 	RootOnly bool `json:"rootOnly"`
 	Dense    bool `json:"dense,omitempty"`
+	Chain    bool `json:"chain,omitempty"` // ranges are runs of nested keys c, cc, ccc, ... (deep paths)
 	Ops      []Op `json:"ops"`
 }
 
@@ -641,6 +642,12 @@ func runTree(c TreeCase, own string) (res result) {
 			for i := 0; i < o.B && err == nil; i++ {
 				k := append(bytes.Clone(o.Key), byte(o.A+i))
 				long := append(bytes.Clone(k), 5)
+				if in.c.Chain {
+					// nested keys: every key is a prefix of the next one, so the
+					// path to the longest one has one node per key
+					k = chainKey(o.A + i)
+					long = append(bytes.Clone(k), 'x')
+				}
 				if o.K == opInsertRange {
 					if o.Val == 5 {
 						k = long // a longer key: the child is an inner position with a deeper leaf
@@ -850,6 +857,20 @@ func genDenseKey() *rapid.Generator[[]byte] {
 	})
 }
 
+func chainKey(n int) []byte { return bytes.Repeat([]byte{'c'}, n) }
+
+var chainLens = []int{0, 1, 2, 3, 30, 31, 32, 33, 34, 35, 36, 40, 47, 48, 60}
+
+func genChainKey() *rapid.Generator[[]byte] {
+	return rapid.Custom(func(t *rapid.T) []byte {
+		k := chainKey(rapid.SampledFrom(chainLens).Draw(t, "len"))
+		if rapid.IntRange(0, 3).Draw(t, "branch") == 0 {
+			k = append(k, 'x')
+		}
+		return k
+	})
+}
+
 var denseWatchKeys = [][]byte{{'p'}, {'q'}, {'p', 0}, {'p', 1}, {'p', 200}, {'q', 0}, {'q', 12}, {}}
 
 var wordKeys = func() [][]byte {
@@ -862,7 +883,7 @@ var wordKeys = func() [][]byte {
 
 func genTreeCase(t *rapid.T) TreeCase {
 	c := TreeCase{RootOnly: rapid.Bool().Draw(t, "rootOnly")}
-	dist := rapid.SampledFrom([]int{0, 1, 1, 2, 2}).Draw(t, "keyDistribution")
+	dist := rapid.SampledFrom([]int{0, 1, 1, 2, 2, 3}).Draw(t, "keyDistribution")
 	dense := dist == 1
 	keyGen := genSparseKey()
 	switch dist {
@@ -878,6 +899,12 @@ func genTreeCase(t *rapid.T) TreeCase {
 		// long write-only transactions (reads would bump the txnID and mask
 		// in-place mutation paths), with channels collected up front
 		weights = []int{opBegin, opInsert, opInsert, opInsert, opInsert, opDelete, opDelete, opDelete, opDelete, opModify, opCommit, opCommit, opAbandon, opWatchAll, opWatchAll, opInsertWatch, opRead}
+	}
+	if dist == 3 {
+		// deep paths: runs of nested keys (more than 32 nodes between the root and the longest key)
+		c.Chain = true
+		keyGen = genChainKey()
+		weights = append(weights, opInsertRange, opInsertRange, opInsertRange, opDeleteRange, opDelete, opDelete)
 	}
 	c.Dense = dense
 	if dense {
@@ -903,6 +930,10 @@ func genTreeCase(t *rapid.T) TreeCase {
 			o.A = rapid.SampledFrom([]int{0, 0, 1, 3, 12, 40, 100, 200}).Draw(t, "from")
 			o.B = rapid.SampledFrom([]int{1, 2, 4, 5, 13, 17, 33, 49, 56}).Draw(t, "count")
 			o.Val = rapid.IntRange(0, 5).Draw(t, "val")
+			if c.Chain {
+				o.A = rapid.SampledFrom([]int{0, 0, 1, 2, 20, 30, 31, 32, 33}).Draw(t, "chainFrom")
+				o.B = rapid.SampledFrom([]int{1, 2, 5, 13, 17, 33, 35, 49}).Draw(t, "chainCount")
+			}
 		case opIter:
 			o.Key = keyGen.Draw(t, "key")
 			o.Val = rapid.IntRange(0, 2).Draw(t, "kind")
